@@ -85,7 +85,7 @@ func main() {
 		run  func(c *ctx, r *vlib.RNG) []string
 	}
 	secs := []section{
-		{"hash", runHash}, {"bloom", runBloom}, {"has", runHas}, {"table", runTables}, {"golden", runGolden}, {"db", runDB},
+		{"hash", runHash}, {"bloom", runBloom}, {"has", runHas}, {"table", runTables}, {"golden", runGolden}, {"db", runDB}, {"extreme", runExtreme},
 	}
 	root := vlib.NewRNG(a.Seed)
 	outs := make([][]string, len(secs))
@@ -157,6 +157,14 @@ func replay(c *ctx, path string) {
 		var dc dbCase
 		json.Unmarshal(doc.Case, &dc)
 		checkDB(c, dc)
+	case "xgen":
+		var xc xgenCase
+		json.Unmarshal(doc.Case, &xc)
+		checkXGen(c, xc)
+	case "xhas":
+		var xc xhasCase
+		json.Unmarshal(doc.Case, &xc)
+		checkXHas(c, xc)
 	case "has":
 		var hc struct{ Filter, Key string }
 		json.Unmarshal(doc.Case, &hc)
